@@ -25,6 +25,11 @@ def _registered(it, args, kwargs, fr, node):
     r = reg_f(to_z3(args[0]), to_z3(args[1]))
     # registry invariant: klass_by_id searches the same table, so a registered (aid, flag) has a class
     it.ctx.assume(z3.Implies(r, known_f(to_z3(args[0]))))
+    try:
+        _gset(fr, 'reg_called', True)
+        _gset(fr, 'reg_result', r)
+    except Exception:  # noqa: the other users of this handler have no such ghost
+        pass
     return r
 
 
@@ -107,7 +112,7 @@ contract(
     'AttributeCollection._parse_one',
     props=('C02', 'C03', 'C08'),
     params={'self': SELF, 'data': bytes_(1, 65535, 'memoryview'), 'negotiated': obj(None)},
-    ghost={'taw_added': const(False), 'discard_added': const(False), 'decoded_added': const(0), 'decoder_calls': const(0)},
+    ghost={'taw_added': const(False), 'discard_added': const(False), 'decoded_added': const(0), 'decoder_calls': const(0), 'reg_called': const(False), 'reg_result': const(True)},
     lets={'data0': 'data', 'HDR': HDRX, 'LEN': LENX, 'aid0': 'data[1]', 'overrun': f'len(data) < {HDRX} or {LENX} > len(data) - {HDRX}'},
     callees={
         'Attribute.Flag': lambda it, a, k, fr, n: a[0],
@@ -137,8 +142,13 @@ contract(
         'decoder_calls <= 1 and decoded_added <= 1',
         # a failing decoder never leaves a decoded attribute behind
         'implies(taw_added or discard_added, decoded_added == 0)',
+        # RFC 7606 section 3.c: "If the value of either the Optional or Transitive bits in the Attribute Flags is in
+        # conflict with their specified values, then the attribute MUST be treated as malformed and the treat-as-withdraw
+        # approach used" -- for every attribute code the implementation knows, whatever section 7 says about its VALUE
+        # (MP_REACH_NLRI / MP_UNREACH_NLRI do not return: they are refused with a NOTIFICATION)
+        'implies(reg_called and not reg_result and (aid0 in Attribute.attributes_known), taw_added and decoded_added == 0)',
     ],
-    specfns={'cls_taw': VSpecFn(lambda it2, a: taw_f(to_z3(a))), 'cls_discard': VSpecFn(lambda it2, a: dis_f(to_z3(a)))},
+    specfns={'cls_taw': VSpecFn(lambda it2, a: taw_f(to_z3(a))), 'cls_discard': VSpecFn(lambda it2, a: dis_f(to_z3(a))), 'cls_known': VSpecFn(lambda it2, a: known_f(to_z3(a)))},
     result_value=lambda it, cfr: _suffix_of(it, cfr.locs['data']),
     canaries=[
         ('if length > len(data):', 'if length > len(data) + 1:'),
